@@ -122,7 +122,16 @@ def target_from_lmfit():
         idents = {e1: {"R": "R_0", "C": "C_0"}, e2: {"R": "R_1"}}
         vals = {"alpha": T.var("alpha"), "R_1": T.var("v:R_1"), "C_0": T.var("v:C_0"), "R_0": T.var("v:R_0")}
 
-        class P:
+        class Par:
+            def __init__(self, name, vary, expr=None):
+                self.name, self.value, self.vary, self.expr = name, vals[name], vary, expr
+                self.min, self.max, self.stderr = T.var("min:" + name), T.var("max:" + name), None
+
+        class P(dict):
+            # lmfit marks a parameter that carries a constraint expression as vary=False, like a fixed one
+            def __init__(self):
+                super().__init__({"alpha": Par("alpha", True), "R_1": Par("R_1", False, "2 * R_0"), "C_0": Par("C_0", False), "R_0": Par("R_0", True)})
+
             def valuesdict(self):
                 return dict(vals)
         ns = _load([qual], {})
@@ -130,7 +139,7 @@ def target_from_lmfit():
         sess.check("post", [], z3.BoolVal(len(e1.set_calls) == 1 and len(e2.set_calls) == 1 and sorted(e1.set_calls[0]) == ["C", "R"] and sorted(e2.set_calls[0]) == ["R"]), 0, label="each element updated once, with exactly its own symbols (constraint variables ignored)")
         DF.eq_check(sess, "E1.R := params[R_0]", e1.set_calls[0].get("R"), vals["R_0"])
         DF.eq_check(sess, "E1.C := params[C_0]", e1.set_calls[0].get("C"), vals["C_0"])
-        DF.eq_check(sess, "E2.R := params[R_1]", e2.set_calls[0].get("R"), vals["R_1"])
+        DF.eq_check(sess, "E2.R := params[R_1]  (a constrained parameter, vary=False in lmfit, is written back too)", e2.set_calls[0].get("R"), vals["R_1"])
     return (f"{FIT}:{qual}", FIT, qual, run)
 
 
@@ -140,18 +149,19 @@ def target_extract_parameters():
     def run(sess: Session):
         e1 = FakeElement("R", ["R"], (False,))
         e2 = FakeElement("Q", ["Y", "n"], (False, True))
+        e3 = FakeElement("R", ["R"], (False,))           # running identifier 10: 'R_10' must not be taken for element 0
 
         class Par:
             def __init__(self, name):
                 self.value, self.stderr = T.var(f"fit:{name}"), T.var(f"stderr:{name}")
 
         class Fit:
-            var_names = ["R_0", "Y_1", "alpha_1"]          # alpha_1: a user constraint variable that merely looks like '<x>_<id>'
-            params = {n: Par(n) for n in ("R_0", "Y_1", "n_1", "alpha_1")}
+            var_names = ["R_0", "Y_1", "alpha_1", "R_10"]          # alpha_1: a user constraint variable that merely looks like '<x>_<id>'
+            params = {n: Par(n) for n in ("R_0", "Y_1", "n_1", "alpha_1", "R_10")}
 
         class Circuit:
             def generate_element_identifiers(self, running):
-                return {e1: 0, e2: 1} if running else {e1: 1, e2: 1}
+                return {e1: 0, e2: 1, e3: 10} if running else {e1: 1, e2: 1, e3: 2}
         got = {}
 
         def FittedParameter(**kw):
@@ -164,7 +174,8 @@ def target_extract_parameters():
             err, table = ex, {}
         sess.check("exc-free", [], z3.BoolVal(err is None), 0, label=f"no exception for a constraint variable named like a parameter ({type(err).__name__ if err else 'ok'})")
         if err is None:
-            sess.check("post", [], z3.BoolVal(sorted(table) == ["Q_1", "R_1"] and sorted(table["Q_1"]) == ["Y", "n"] and sorted(table["R_1"]) == ["R"]), 0, label="one row per (element name, parameter), nothing else")
+            sess.check("post", [], z3.BoolVal(sorted(table) == ["Q_1", "R_1", "R_2"] and sorted(table["Q_1"]) == ["Y", "n"] and sorted(table["R_1"]) == ["R"] and sorted(table["R_2"]) == ["R"]), 0, label="one row per (element name, parameter), nothing else")
+            DF.eq_check(sess, "table[R_2][R] == fit.params[R_10].value (identifier 10 is not confused with identifier 0)", table["R_2"]["R"]["value"], Fit.params["R_10"].value)
             DF.eq_check(sess, "table[R_1][R] == fit.params[R_0].value", table["R_1"]["R"]["value"], Fit.params["R_0"].value)
             DF.eq_check(sess, "table[Q_1][Y] == fit.params[Y_1].value", table["Q_1"]["Y"]["value"], Fit.params["Y_1"].value)
             DF.eq_check(sess, "table[Q_1][n] (fixed) == element value", table["Q_1"]["n"]["value"], e2.values["n"])
